@@ -372,6 +372,24 @@ pub open spec fn lines_spec(s: Seq<char>) -> Seq<Seq<char>>
 pub uninterp spec fn nonempty_lines_spec(s: Seq<char>) -> Seq<Seq<char>>;
 /// str::split(p) for a non-empty pattern
 pub uninterp spec fn split_spec(s: Seq<char>, p: Seq<char>) -> Seq<Seq<char>>;
+/// index of the first occurrence of the character `ch` in `s` (its length when there is none)
+pub open spec fn ch_pos(s: Seq<char>, ch: char) -> int
+    decreases s.len()
+{
+    if s.len() == 0 { 0 } else if s[0] == ch { 0 } else { 1 + ch_pos(s.subrange(1, s.len() as int), ch) }
+}
+/// str::split(c) for a character pattern as std documents it (trusted model): the pieces between the occurrences of the
+/// character, empty pieces included, always at least one piece.  Opaque like `lines_spec`.
+#[verifier::opaque]
+pub open spec fn split_ch(s: Seq<char>, ch: char) -> Seq<Seq<char>>
+    decreases s.len()
+{
+    let i = ch_pos(s, ch);
+    if i < 0 || i >= s.len() { seq![s] }
+    else { seq![s.subrange(0, i)] + split_ch(s.subrange(i + 1, s.len() as int), ch) }
+}
+pub axiom fn axiom_split_ch(s: Seq<char>, ch: char)
+    ensures split_spec(s, seq![ch]) == split_ch(s, ch);
 /// str::split('\n') as std documents it (trusted model): the pieces between the line feeds, empty pieces included, always at
 /// least one piece.  Opaque like `lines_spec`.
 #[verifier::opaque]
